@@ -17,7 +17,10 @@ def run(tier):
     srf = tlc.run("Surface.tla", "Surface.cfg", workers=12, timeout=1800, heap="12g")
     c.add_tlc(srf, "area features whose min and/or max depth is a surface given at points (local depth interval)")
     beh += [b for b in srf.behaviours if '"affine"' in b[:400] and '"poly2"' in b[:400]]
-    for cfg, nm in (("Plume_cart_quick.cfg", "plume tables, Cartesian"), ("Plume_sph_quick.cfg", "plume tables, spherical")):
+    for cfg, nm in (("Plume_cart_quick.cfg", "plume tables, Cartesian"), ("Plume_sph_quick.cfg", "plume tables, spherical"),
+                    ("Plume_sph_dateline.cfg", "plume tables, spherical, the ellipse crosses the +180 meridian"),
+                    ("Plume_sph_beyond.cfg", "plume tables, spherical, centres written at longitude 190"),
+                    ("Plume_sph_west.cfg", "plume tables, spherical, centres written at longitude -180.2")):
         r = tlc.run("Plume.tla", cfg, workers=12, timeout=1800, heap="12g")
         c.add_tlc(r, nm)
         beh += r.behaviours
@@ -36,7 +39,7 @@ def run(tier):
                           "concave), as footprint of a continental plate, an oceanic plate and a mantle layer stacked in depth, queried at all 81 "
                           "points of the doubled lattice (vertices, edge points, interior, exterior; integer metres so boundary points are exact) "
                           "and at the ends of / just outside the depth interval; plume tables with 1-2 (thorough: 3) cross sections over centres x "
-                          "axes x eccentricities x rotation angles (incl. pairs that cross north either way), Cartesian and spherical, probed at "
+                          "axes x eccentricities x rotation angles (incl. pairs that cross north either way), Cartesian and spherical (also shifted in longitude so that the ellipse crosses the +-180 meridian or its centres are written at 190 / -180.2 degrees), probed at "
                           "64 surface points x cap / section / between-section (fractions 1/4, 1/3, 1/2, 0.925) / below-last / out-of-range depths. "
                           "non-trivial: every polygon and table (each has interior and exterior probes)")
     c.assumptions += ["plume membership asserted only where |F-1| > 1e-6 (F evaluated by the harness from the specification's term)",
